@@ -50,8 +50,8 @@ class Rec(Collector):
         t = self.model.systems.timestep
         self.n += 1
         if self.boom is not None and t == 0 and self.id == 'c0':
-            if self.boom == 'ModelCompleteError':       # the library's own exception type, raised by model code
-                raise Core.ModelCompleteError()
+            if self.boom in LIB_ERRORS:       # the library's own exception types, raised by model code
+                raise LIB_ERRORS[self.boom](self.model)
             raise BOOM_KINDS[self.boom](f'boom a={self.a} b={self.b} t={t}')
         self.records.append((self.id, self.a, self.b, t, self.n))
         if self.id == 'c1' and t + 1 >= self.life:
@@ -62,8 +62,19 @@ class BoomError(Exception):
     pass
 
 
+# what a model's own code gets from the library when it asks for a missing agent, adds one twice, reads a component an
+# agent does not carry or steps a finished (sub-)model
+LIB_ERRORS = {'ModelCompleteError': lambda m: Core.ModelCompleteError(),
+              'AgentNotFoundError': lambda m: Core.AgentNotFoundError('ghost', m.environment),
+              'DuplicateAgentError': lambda m: Core.DuplicateAgentError('twin', m.environment),
+              'ComponentNotFoundError': lambda m: Core.ComponentNotFoundError(Core.Agent('lone', m), Core.Component)}
 BOOM_KINDS = {'RuntimeError': RuntimeError, 'StopIteration': StopIteration, 'KeyError': KeyError,
-              'BoomError': BoomError, 'ModelCompleteError': Core.ModelCompleteError}
+              'BoomError': BoomError, 'ModelCompleteError': Core.ModelCompleteError,
+              'AgentNotFoundError': Core.AgentNotFoundError, 'DuplicateAgentError': Core.DuplicateAgentError,
+              'ComponentNotFoundError': Core.ComponentNotFoundError}
+
+
+LIB_ERROR_TYPES = tuple(BOOM_KINDS[k] for k in LIB_ERRORS)
 
 
 class BModel(Core.Model):
@@ -75,8 +86,8 @@ class BModel(Core.Model):
             boom = boom.split(':')[1]
             if boom.endswith('@init'):       # the execution fails while the model is being constructed
                 kind = boom[:-5]
-                if kind == 'ModelCompleteError':
-                    raise Core.ModelCompleteError()
+                if kind in LIB_ERRORS:
+                    raise LIB_ERRORS[kind](self)
                 raise BOOM_KINDS[kind](f'boom in __init__ a={a} b={b}')
         else:
             boom = None
@@ -193,8 +204,11 @@ def run_batch(case, cache=None):
         try:
             got = Batching.batch_run(BModel, params, **kwargs)
             raised = None
-        except (RuntimeError, StopIteration, KeyError, BoomError, Core.ModelCompleteError, AttributeError) as e:
+        except (RuntimeError, StopIteration, KeyError, BoomError, AttributeError) + LIB_ERROR_TYPES as e:
             got, raised = None, e
+        except sched.PoolHang as e:
+            raise Violation(f'batch_run never returns and the error of the failing execution never reaches the caller: '
+                            f'{e} (batch {case})', expected='the error in the caller', observed='hang')
     finally:
         if procs != 1:
             sched.uninstall(Batching)
@@ -208,7 +222,7 @@ def run_batch(case, cache=None):
                 raise Violation(f'an execution raising {case.get("boom_kind", "RuntimeError")} was dropped silently '
                                 f'(batch {case})', expected='an error in the caller', observed=_short(got))
             if 'boom' not in str(raised) and 'StopIteration' not in str(raised) and \
-                    not isinstance(raised, Core.ModelCompleteError):
+                    not isinstance(raised, LIB_ERROR_TYPES):
                 raise Violation(f'the caller got a different error: {raised!r}')
             return ('raised', str(raised))
     if case.get('nocoll') is not None:
@@ -337,8 +351,6 @@ def fault_cases(tier):
                 for where in ('step', 'init'):
                     yield {'leg': 'fault', 'grid': gname, 'reps': reps, 'life': 2, 'limit': None, 'collectors': 'c0',
                            'procs': 1, 'boom': boom, 'boom_kind': kind, 'boom_where': where}
-                    if kind == 'ModelCompleteError':
-                        continue      # cannot be unpickled (its constructor takes no arguments): single-process only
                     for p in (2, 3):
                         if p > n:
                             continue
@@ -417,6 +429,49 @@ def conformance(ctx):
             note='sampling of the OS scheduler; binds the schedule model to the real Pool, decides nothing')
 
 
+def _real_pool_error_child(conn, kind, where):
+    params = grid_params('3x1', 2)
+    t = task_list('3x1', 1, 2)[1]
+    params['boom'] = f'{t[0]},{t[1]}:{kind}{"@init" if where == "init" else ""}'
+    try:
+        got = Batching.batch_run(BModel, params, collectors='c0', processes=2)
+        conn.send(('returned', _short(got)))
+    except BaseException as e:      # noqa
+        conn.send(('raised', type(e).__name__))
+
+
+def real_pool_errors(ctx):
+    """Binds the modelled hang (sched.PoolHang) to the real pool: a failing execution under the real
+    multiprocessing.Pool, run in a child process so that a batch that never returns can be told from one that
+    raises; the child gets 60 s for a batch that takes a few milliseconds."""
+    import multiprocessing
+    mp = multiprocessing.get_context('fork')
+    for kind in BOOM_KINDS:
+        for where in ('step', 'init'):
+            ctx.traces += 1
+            here, there = mp.Pipe(False)
+            pr = mp.Process(target=_real_pool_error_child, args=(there, kind, where))
+            pr.start()
+            there.close()
+            msg = here.recv() if here.poll(60) else None
+            if msg is None:
+                pr.kill()
+            pr.join()
+            case = {'leg': 'real_pool_error', 'boom_kind': kind, 'boom_where': where}
+            if msg is None:
+                ctx.report(case, Violation(f'real Pool, 2 processes: batch_run has not returned after 60 s when one '
+                                           f'execution raises {kind} ({where}); the error never reaches the caller',
+                                           expected='the error in the caller', observed='hang'))
+                return
+            if msg[0] != 'raised':
+                ctx.report(case, Violation(f'real Pool, 2 processes: an execution raising {kind} ({where}) was '
+                                           f'dropped', expected='an error in the caller', observed=msg[1]))
+                return
+            ctx.outcome(('real_pool_error', kind, where, msg[1]))
+    ctx.leg('real_pool_errors', runs=2 * len(BOOM_KINDS),
+            note='the real pool with a failing execution of every error kind: raises, never hangs')
+
+
 def run(ctx):
     invalid_collectors(ctx)
     cases = list(serial_cases())
@@ -450,6 +505,8 @@ def run(ctx):
                 ctx.report(case, v)
         ctx.leg('pool_reuse_real_pool', sequences=4)
     if not ctx.violations:
+        real_pool_errors(ctx)
+    if not ctx.violations:
         conformance(ctx)
 
 
@@ -465,6 +522,24 @@ def replay(case):
         return
     if case['leg'] == 'reused_list':
         hbfs._guard(reused_list_case, case)
+        return
+    if case['leg'] == 'real_pool_error':
+        from mc.engine.report import Ctx      # noqa
+        class _C:      # minimal context
+            traces = 0
+            def __init__(self): self.v = None
+            def report(self, c, v): self.v = v
+            def outcome(self, o): pass
+            def leg(self, *a, **k): pass
+        c = _C()
+        global BOOM_KINDS
+        keep, BOOM_KINDS = BOOM_KINDS, {case['boom_kind']: BOOM_KINDS[case['boom_kind']]}
+        try:
+            real_pool_errors(c)
+        finally:
+            BOOM_KINDS = keep
+        if c.v is not None:
+            raise c.v
         return
     if case['leg'] == 'conformance':
         raise Violation('conformance cases are not replayable deterministically (real OS scheduling)')
